@@ -6,6 +6,7 @@ From Verif Require Import lib.Wire c05.ModelLimiter c05.SpecLimiter c05.Proofs_L
 From Verif Require Import c05.ModelWorker c05.SpecWorker c05.Proofs_Worker.
 From Verif Require Import c05.ModelRanker c05.SpecRanker c05.Proofs_Ranker.
 From Verif Require Import c05.Proofs_LimiterMon c05.Proofs_WorkerMon.
+From Verif Require Import c05.ModelSync c05.SpecSync c05.Proofs_Sync.
 Import ListNotations.
 Local Open Scope Z_scope.
 
@@ -136,6 +137,47 @@ Theorem c05_worker_monitor_holds_partial : forall xs, wf_stims (init_env, init_w
 Proof. exact monitor_w_holds_partial_l. Qed.
 Print Assumptions c05_worker_monitor_holds_partial.
 
+(* ---- dialSync ------------------------------------------------------------------------
+   for EVERY interleaving of getActiveDial / locked-tail-of-Dial sections of any number
+   of callers on any peers: refCnt counts the callers inside Dial; ds.dials[p] exists iff
+   some caller is inside; exactly one worker runs for p while it exists and every earlier
+   one has been stopped (worker stops iff the last caller returned); while a caller is
+   inside the shared context is live and reqch open (a caller that leaves - cancelled or
+   answered - does not cancel it); reqch is only ever closed after the shared context was
+   cancelled, also in the state between the two statements that the worker can observe. *)
+Theorem c05_sync_refcount : forall evs p,
+  let ps := sget p (srun [] evs) in
+  p_ref ps = Z.of_nat (length (p_inside ps)) /\
+  (p_active ps = true <-> p_inside ps <> []) /\
+  p_started ps = p_stopped ps + (if p_active ps then 1 else 0) /\
+  (p_active ps = true -> p_canc ps = false /\ p_closed ps = false) /\
+  (p_closed ps = true -> p_canc ps = true).
+Proof.
+  intros evs p ps. destruct (srun_inv evs [] init_sinv p) as [A B C D E _]. auto.
+Qed.
+Print Assumptions c05_sync_refcount.
+
+Theorem c05_sync_cancel_before_close : forall evs e p,
+  let s := srun [] evs in
+  p_closed (sget p (smid s e)) = true -> p_canc (sget p (smid s e)) = true.
+Proof.
+  intros evs e p s. destruct (sstep_inv s e (srun_inv evs [] init_sinv)) as [_ M]. exact (M p).
+Qed.
+Print Assumptions c05_sync_cancel_before_close.
+
+Theorem c05_sync_leaving_caller_keeps_shared_dial : forall evs c p,
+  let ps := sget p (srun [] evs) in
+  memc c (p_inside ps) = true -> 2 <= p_ref ps ->
+  let ps' := sget p (sstep (srun [] evs) (SLeave c p)) in
+  p_active ps' = true /\ p_canc ps' = p_canc ps /\ p_closed ps' = p_closed ps /\
+  p_started ps' = p_started ps /\ p_stopped ps' = p_stopped ps.
+Proof.
+  intros evs c p ps Hm H2 ps'. unfold ps'. cbn [sstep]. fold ps. rewrite Hm.
+  unfold sget. rewrite Proofs_Limiter.aget_aput, Z.eqb_refl.
+  apply leave_not_last; auto. apply (srun_inv evs [] init_sinv p).
+Qed.
+Print Assumptions c05_sync_leaving_caller_keeps_shared_dial.
+
 (* ---- DefaultDialRanker ---------------------------------------------------------------
    for every sort.Slice that permutes its input, every address list and every
    assignment of the predicates: each input address is returned exactly once, and no
@@ -219,3 +261,10 @@ Proof.
     repeat (constructor; [cbn; intuition discriminate|]); try constructor; auto;
     try (intros [H|[]]; discriminate); try (intros []).
 Qed.
+
+(* the dialSync monitor rejects a trace where reqch is closed before the shared context
+   is cancelled *)
+Example sync_monitor_rejects_close_before_cancel :
+  monitor_s_case [1; 1; 1;  1; 1; 1; 1; 1; 0; 0;  0;  0;
+                  2; 1;     1; 1; 0; 0; 1; 1; 1;  1; 1; 2;  3] <> [].
+Proof. vm_compute. discriminate. Qed.
